@@ -3,6 +3,13 @@
 #include <osmium/builder/osm_object_builder.hpp>
 #include <osmium/memory/buffer.hpp>
 #include <osmium/opl.hpp>
+#include <osmium/io/pbf_input.hpp>
+#include <osmium/io/pbf_output.hpp>
+#include <osmium/io/reader.hpp>
+#include <osmium/io/writer.hpp>
+#include <fstream>
+#include <cstring>
+#include <unistd.h>
 #include <osmium/osm.hpp>
 #include <string>
 #include <cstdio>
@@ -23,7 +30,28 @@ static int check_len(size_t len) {
         if (which < 2) for (const auto& t : buf.get<osmium::Node>(0).tags()) (void)t; } }
     return 0;
 }
-int main(int, char**) {
+
+// a PBF file whose string table holds a tag key with an embedded zero byte: the reader must reject it or deliver tags that lie inside the tag list
+static int check_pbf_nul() {
+    for (int dense = 0; dense < 2; ++dense) {
+        char name[] = "/tmp/c03_pbfnul_XXXXXX"; const int fd = mkstemp(name); if (fd < 0) return 2; close(fd);
+        osmium::io::File of{name, "pbf"}; of.set("pbf_compression", "none"); of.set("pbf_dense_nodes", dense ? "true" : "false");
+        { osmium::io::Writer w{of, osmium::io::overwrite::allow}; osmium::memory::Buffer buf{10240};
+          { osmium::builder::NodeBuilder b{buf}; b.set_id(1); b.object().set_location(osmium::Location{1, 1}); { osmium::builder::TagListBuilder t{b}; t.add_tag("kXey", "value"); t.add_tag("zzz", "yyy"); } }
+          buf.commit(); w(std::move(buf)); w.close(); }
+        std::ifstream in(name, std::ios::binary); std::string d((std::istreambuf_iterator<char>(in)), std::istreambuf_iterator<char>()); unlink(name);
+        const auto p = d.find("kXey"); if (p == std::string::npos) return 2; d[p + 1] = '\0';
+        try { osmium::io::File f{d.data(), d.size(), "pbf"}; osmium::io::Reader r{f};
+            while (auto b = r.read()) for (const auto& n : b.select<osmium::Node>()) { const char* end = reinterpret_cast<const char*>(n.tags().data()) + n.tags().byte_size(); int count = 0;
+                for (const auto& t : n.tags()) { if (++count > 100 || t.value() >= end || t.value() + std::strlen(t.value()) >= end) {
+                    std::printf("PBF file with a zero byte inside a tag key (%s nodes): iterating over the tags leaves the tag list (tag %d)\nARGV: pbfnul\n", dense ? "dense" : "plain", count); return 1; } } }
+            r.close(); } catch (const std::exception&) { }
+    }
+    return 0;
+}
+int main(int argc, char** argv) {
+    if (argc > 1 && std::string(argv[1]) == "pbfnul") return check_pbf_nul();
+    if (check_pbf_nul()) return 1;
     for (size_t len : {size_t(0), size_t(1), size_t(7), size_t(8), size_t(255), size_t(1020), size_t(1024), size_t(1025), size_t(4000), size_t(65534), size_t(65535), size_t(65536), size_t(65541), size_t(70000)}) if (check_len(len)) return 1;
     std::printf("search: no disagreement found\n"); return 0;
 }
